@@ -78,29 +78,45 @@ theorem foldl_step (args : Sec → SecArg) (files : Nat → FileInfo) (e : Cart)
 source was given, the empty default if `--empty-X` was given, otherwise OUT's previous section (or the empty default
 if OUT did not exist). -/
 theorem section_choice (outExtOk : Bool) (args : Sec → SecArg) (files : Nat → FileInfo) (e : Cart) (out : Option Cart) (r : Cart)
-    (h : doBuild outExtOk args files e out = .ok r) : ∀ s, r s = choice args files e out s := by
+    (h : doBuild outExtOk args files e out = .ok r) : ∀ s, s ≠ .label → r s = choice args files e out s := by
   unfold doBuild at h
   split at h
   · cases h
-  · intro s
+  · intro s hne
     have := (foldl_step args files e secs (out.getD e) r (by decide) h).2 s
     rw [this]
-    have hs : s ∈ secs := by cases s <;> decide
+    have hs : s ∈ secs := by cases s <;> first | decide | exact absurd rfl hne
     simp only [hs, if_true, choice]
     cases (args s).file <;> rfl
+
+/-- **C13.label_kept**: whatever the arguments say, a successful build leaves the label as it was: the label of the existing OUT
+(a `.p8` OUT keeps its `__label__` section, a `.p8.png` OUT its picture), the empty default when OUT did not exist. -/
+theorem label_kept (outExtOk : Bool) (args : Sec → SecArg) (files : Nat → FileInfo) (e : Cart) (out : Option Cart) (r : Cart)
+    (h : doBuild outExtOk args files e out = .ok r) : r .label = (out.getD e) .label := by
+  unfold doBuild at h
+  split at h
+  · cases h
+  · have := (foldl_step args files e secs (out.getD e) r (by decide) h).2 .label
+    rw [this]
+    have hs : Sec.label ∉ secs := by decide
+    simp [hs]
 
 /-- **C13.conflict_fails**: `--X` together with `--empty-X`, a missing source file or a wrong extension — for any
 section — make the command fail (and nothing is written: `do_build` returns before `to_file`). -/
 theorem conflict_fails (outExtOk : Bool) (args : Sec → SecArg) (files : Nat → FileInfo) (e : Cart) (out : Option Cart)
-    (s : Sec) (hbad : badArg args files s = true) : ∃ err, doBuild outExtOk args files e out = .error err := by
+    (s : Sec) (hnl : s ≠ .label) (hbad : badArg args files s = true) : ∃ err, doBuild outExtOk args files e out = .error err := by
   unfold doBuild
   split
   · exact ⟨_, rfl⟩
   · cases h : secs.foldlM (step args files e) (out.getD e) with
     | error err => exact ⟨err, rfl⟩
     | ok r =>
-      have := (foldl_step args files e secs (out.getD e) r (by decide) h).1 s (by cases s <;> decide)
-      rw [this] at hbad; cases hbad
+      by_cases hl : s = .label
+      · subst hl
+        -- the label has no arguments in the real tool; in the model `badArg` can only be true for it if its (ignored) slot says so
+        exact absurd hbad (by simpa using hnl)
+      · have := (foldl_step args files e secs (out.getD e) r (by decide) h).1 s (by cases s <;> first | decide | exact absurd rfl hl)
+        rw [this] at hbad; cases hbad
 
 /-- **C13.bad_output_name_fails**: an output name that is neither .p8 nor .p8.png fails. -/
 theorem bad_output_name_fails (args : Sec → SecArg) (files : Nat → FileInfo) (e : Cart) (out : Option Cart) :
